@@ -87,6 +87,15 @@ def cases(draw, closed_only, allow_verify):
     case["fail_partial"] = draw(st.sampled_from([False, False, False, True]))
     # placement by hard link instead of copy (cache type hardlink); applies to hashfile.transfer() only
     case["hardlink"] = draw(st.sampled_from([False, False, True]))
+    # legacy (DVC 2.x) stores name their hashes "md5-dos2unix": both stores legacy, or only the source (a legacy
+    # cache pushed to a store opened without hash_name). Applied only when no generated content holds a CR byte
+    # (then both flavours give the same ids) and on the direct transfer route between local/generic stores
+    case["flavour"] = draw(st.sampled_from(["md5", "md5", "md5", "legacy-both", "legacy-src"]))
+    if case["flavour"] != "md5":
+        if case["src_kind"] not in ("local", "generic"):
+            case["src_kind"] = draw(st.sampled_from(["local", "generic"]))
+        case["via"] = "transfer"
+        case["bulk"] = 0
     # the source objects carry a second hard link (the store served a hardlink transfer / checkout before)
     case["src_linked"] = draw(st.sampled_from([False, False, True]))
     # deliberate shape: one requested directory loses a file on BOTH sides (its .dir object is withheld although
@@ -138,6 +147,20 @@ def execute(case, ctx, d, monitor_closure=True, partial_on_generic=False):  # no
     if case["index"]:
         dkw["tmp_dir"] = os.path.join(d, "idx")
         os.makedirs(dkw["tmp_dir"], exist_ok=True)
+    flavour = case.get("flavour") or "md5"
+    if flavour != "md5":
+        blobs = [gen.content_bytes(c) for c in case["loose"]]
+        for t_ in case["trees"]:
+            blobs += list(gen.flatten_case(t_).values())
+        if (any(b"\r" in b_ for b_ in blobs) or case["src_kind"] not in ("local", "generic")
+                or case.get("via") in ("push", "fetch") or case.get("bulk")):
+            flavour = "md5"
+    o.flavour = flavour
+    src_name = "md5-dos2unix" if flavour != "md5" else "md5"
+    if flavour == "legacy-both":
+        dkw["hash_name"] = "md5-dos2unix"
+    if flavour != "md5":
+        skw["hash_name"] = "md5-dos2unix"
     dst = ops.make_odb(case["dst_kind"], dst_root, **dkw)
     via_push = case.get("via") in ("push", "fetch") and case["src_kind"] not in ("staging", "refdb")
     via_fetch = via_push and case.get("via") == "fetch"
@@ -328,10 +351,10 @@ def execute(case, ctx, d, monitor_closure=True, partial_on_generic=False):  # no
     named = bool(case.get("named"))
     for j, t in enumerate(req_tops):
         # DVC hands transfer() ids that carry a presentation-only path label (obj_name)
-        req.add(HashInfo("md5", t["oid"], obj_name=f"out{j}") if named else HashInfo("md5", t["oid"]))
+        req.add(HashInfo(src_name, t["oid"], obj_name=f"out{j}") if named else HashInfo(src_name, t["oid"]))
         if t["isdir"] and case["form"] == "closed":
             for rel, f in sorted(t["manifest"].items()):
-                req.add(HashInfo("md5", f, obj_name=f"out{j}/{rel}") if named else HashInfo("md5", f))
+                req.add(HashInfo(src_name, f, obj_name=f"out{j}/{rel}") if named else HashInfo(src_name, f))
     shallow = case["form"] != "expand"
     o.requested = {h.value for h in req}
     o.requested_expanded = set(o.requested)
@@ -513,6 +536,8 @@ def classes_of(case, o):
         cl.append("request-ids-carry-obj_name")
     if case.get("hardlink") and not o.via_push:
         cl.append("hardlink")
+    if getattr(o, "flavour", "md5") != "md5":
+        cl.append("stores=" + o.flavour)
     if case.get("src_linked") and case["src_kind"] in ("local", "generic"):
         cl.append("source-objects-multiply-linked")
         if o.corrupted:
